@@ -1,5 +1,5 @@
 """Property -> rule list. Each rule: (id, text, function(ctx, report))."""
-import rules_cmd, rules_expire, rules_conn
+import rules_cmd, rules_expire, rules_conn, rules_auth
 
 
 def rules_for(pid):
@@ -36,8 +36,17 @@ def _c05():
     ]
 
 
+def _c17():
+    return [
+        ("R-AUTH-GATE", "every privileged call on the frame path is dominated by the pass edge of the authentication gate (in process_frame by dominance and non-reachability from the refuse edge; outside it nothing privileged runs per frame)", rules_auth.rule_gate),
+        ("R-AUTH-SET", "ConnectionState::Authenticated is stored only at accept without password, after a full password equality in AUTH (for the calling connection), or when leaving Blocked", rules_auth.rule_set),
+        ("R-AUTH-FAIL", "the failed-AUTH edge performs no state-changing call", rules_auth.rule_fail),
+    ]
+
+
 REGISTRY = {
     "C01": _c01,
     "C02": _c02,
     "C05": _c05,
+    "C17": _c17,
 }
